@@ -2,14 +2,17 @@
 (* Conformance of the implementation with Qha.tla.  One event = one call     *)
 (* PhonopyQHA(volumes, electronic_energies, temperatures, free_energy, cv,   *)
 (* entropy, eos, pressure, t_max) on the real code (harness/props/c20.py):   *)
-(*   ev.inp  - the abstract input (tables of rationals)                      *)
+(*   ev.inp  - the abstract input (tables of rationals; the outcome of every *)
+(*             fit call as observed - status of scipy's leastsq, exception - *)
+(*             or as injected by the harness is part of it: bmplan, fitplan) *)
 (*   ev.obs  - the projected result: the rows that reached the fit inside    *)
 (*             BulkModulus and QHA.run, identified as formal combinations of *)
-(*             the input tables; the public tables projected to rationals    *)
-(*             (divided by the REQUIRED unit factor)                         *)
+(*             the input tables; where each fit started from; the public     *)
+(*             tables projected to rationals (divided by the REQUIRED unit   *)
+(*             factor); the files written by the write_... methods           *)
 (*   ev.exact - every projected number lay within tolerance of its grid value*)
-(* Impl*: the requirement of C20 evaluated on the logged result.             *)
-(* Conforms*: the logged result is the step machine's result.                *)
+(* Impl...: the requirement of C20 evaluated on the logged result.           *)
+(* Conforms...: the logged result is the step machine's result.              *)
 EXTENDS Qha
 
 CONSTANT Events
@@ -27,36 +30,51 @@ Ob == ev.obs
 O == [status |-> Ob.status, len |-> Ob.len, nfit |-> Ob.nfit,
       bm |-> [j \in 1..Len(Ob.bmrows) |-> ElCurve(X, Ob.bmrows[j])], bmpar |-> Ob.bmpar,
       rows |-> Ob.rows, vol |-> Ob.vol, gibbs |-> Ob.gibbs, bulk |-> Ob.bulk,
-      beta |-> Ob.beta, cp |-> Ob.cp, cpfit |-> Ob.cpfit, gru |-> Ob.gru]
+      beta |-> Ob.beta, cp |-> Ob.cp, cpfit |-> Ob.cpfit, gru |-> Ob.gru, files |-> Ob.files]
 ImplOK == AtEnd /\ O.status = "ok"
+(* the clauses about the returned tables speak when a result is due at all and every *)
+(* returned row belongs to a fit that succeeded; otherwise ImplRefuses /              *)
+(* ImplFailedFitReported have already failed and the tables mean nothing              *)
+MustRefuse(x) == ~Ascending(x) \/ x.nvd < 5
+ImplTables == ImplOK /\ ~MustRefuse(X) /\ ReqFailedFitReported(X, O)
 
-ImplExact == AtEnd => ev.exact
+ImplExact == (AtEnd /\ (O.status = "ok" => ImplTables)) => ev.exact
+ImplRefuses == AtEnd => ReqRefuses(X, O) /\ ReqRefusesPolyfit(X, O)
 ImplCompletes == AtEnd => ReqCompletes(X, O)
-ImplLength == ImplOK => ReqLength(X, O)
-ImplPerTemperatureElectronic == ImplOK => ReqPerTemperatureElectronic(X, O)
-ImplPhononUnit == ImplOK => ReqPhononUnit(X, O)
-ImplPressureSign == ImplOK => ReqPressureSign(X, O) /\ ReqNoSpuriousPV(X, O)
-ImplRecoverVolume == ImplOK => ReqRecoverVolume(X, O)
-ImplRecoverGibbs == ImplOK => ReqRecoverGibbs(X, O)
-ImplRecoverBulk == ImplOK => ReqRecoverBulk(X, O)
-ImplBulkModulusObject == ImplOK => ReqBulkModulusObject(X, O)
-ImplThermalExpansion == ImplOK => ReqThermalExpansion(X, O)
-ImplHeatCapacity == ImplOK => ReqHeatCapacity(X, O)
-ImplHeatCapacityPolyfit == ImplOK => ReqHeatCapacityPolyfit(X, O)
-ImplGruneisen == ImplOK => ReqGruneisen(X, O)
+ImplFailedFitReported == AtEnd => ReqFailedFitReported(X, O)
+(* every fit starts from values derived from its own row, not from another temperature *)
+ImplFitStart == AtEnd => \A i \in 1..Len(Ob.starts) : Ob.starts[i] = "own"
+ImplLength == ImplTables => ReqLength(X, O)
+ImplPerTemperatureElectronic == ImplTables => ReqPerTemperatureElectronic(X, O)
+ImplPhononUnit == ImplTables => ReqPhononUnit(X, O)
+ImplPressureSign == ImplTables => ReqPressureSign(X, O) /\ ReqNoSpuriousPV(X, O)
+ImplRecoverVolume == ImplTables => ReqRecoverVolume(X, O)
+ImplRecoverGibbs == ImplTables => ReqRecoverGibbs(X, O)
+ImplRecoverBulk == ImplTables => ReqRecoverBulk(X, O)
+ImplBulkModulusObject == ImplTables => ReqBulkModulusObject(X, O)
+ImplThermalExpansion == ImplTables => ReqThermalExpansion(X, O)
+ImplHeatCapacity == ImplTables => ReqHeatCapacity(X, O)
+ImplHeatCapacityPolyfit == ImplTables => ReqHeatCapacityPolyfit(X, O)
+ImplGruneisen == ImplTables => ReqGruneisen(X, O)
+ImplFiles == ImplTables => ReqFiles(X, O)
 
-ConformsStatus == AtEnd => (O.status = "ok") = (status = "ok") /\ (O.status = "AssertionError") = (status = "assert")
-ConformsLen == ImplOK /\ Done => O.len = Out.len
-ConformsRows == ImplOK /\ Done => O.rows = Out.rows /\ O.nfit = numElems
-ConformsBulkModulus == ImplOK /\ Done => O.bm = Out.bm /\ O.bmpar = Out.bmpar
-ConformsTables == ImplOK /\ Done => O.vol = Out.vol /\ O.gibbs = Out.gibbs /\ O.bulk = Out.bulk
-ConformsStencils == ImplOK /\ Done => O.beta = Out.beta /\ O.cp = Out.cp /\ O.cpfit = Out.cpfit /\ O.gru = Out.gru
+ConformsStatus == AtEnd => /\ (O.status = "ok") = (status = "ok")
+                           /\ (O.status = "AssertionError") = (status = "assert")
+                           /\ (O.status = "refused") = (status = "refused")
+ConformsLen == ImplTables /\ Done => O.len = Out.len
+ConformsRows == ImplTables /\ Done => O.rows = Out.rows /\ O.nfit = Len(rows)
+ConformsBulkModulus == ImplTables /\ Done => O.bm = Out.bm /\ O.bmpar = Out.bmpar
+ConformsTables == ImplTables /\ Done => O.vol = Out.vol /\ O.gibbs = Out.gibbs /\ O.bulk = Out.bulk
+ConformsStencils == ImplTables /\ Done => O.beta = Out.beta /\ O.cp = Out.cp /\ O.cpfit = Out.cpfit /\ O.gru = Out.gru
+ConformsFiles == ImplTables /\ Done => O.files = Out.files
 
 (* compact per-event verdict for the harness: which clauses fail for which input.   *)
 (* Always TRUE as an invariant (PrintT is TRUE); the clauses themselves are checked  *)
 (* as invariants above.                                                             *)
 Verdict(n) ==
   CASE n = "ImplExact" -> ImplExact [] n = "ImplCompletes" -> ImplCompletes [] n = "ImplLength" -> ImplLength
+    [] n = "ImplRefuses" -> ImplRefuses [] n = "ImplFailedFitReported" -> ImplFailedFitReported
+    [] n = "ImplFitStart" -> ImplFitStart [] n = "ImplFiles" -> ImplFiles
     [] n = "ImplPerTemperatureElectronic" -> ImplPerTemperatureElectronic [] n = "ImplPhononUnit" -> ImplPhononUnit
     [] n = "ImplPressureSign" -> ImplPressureSign [] n = "ImplRecoverVolume" -> ImplRecoverVolume
     [] n = "ImplRecoverGibbs" -> ImplRecoverGibbs [] n = "ImplRecoverBulk" -> ImplRecoverBulk
@@ -65,10 +83,12 @@ Verdict(n) ==
     [] n = "ImplGruneisen" -> ImplGruneisen [] n = "ConformsStatus" -> ConformsStatus [] n = "ConformsLen" -> ConformsLen
     [] n = "ConformsRows" -> ConformsRows [] n = "ConformsBulkModulus" -> ConformsBulkModulus
     [] n = "ConformsTables" -> ConformsTables [] n = "ConformsStencils" -> ConformsStencils
-Clauses == {"ImplExact", "ImplCompletes", "ImplLength", "ImplPerTemperatureElectronic", "ImplPhononUnit",
+    [] n = "ConformsFiles" -> ConformsFiles
+Clauses == {"ImplExact", "ImplCompletes", "ImplLength", "ImplRefuses", "ImplFailedFitReported", "ImplFitStart",
+            "ImplFiles", "ImplPerTemperatureElectronic", "ImplPhononUnit",
             "ImplPressureSign", "ImplRecoverVolume", "ImplRecoverGibbs", "ImplRecoverBulk", "ImplBulkModulusObject",
             "ImplThermalExpansion", "ImplHeatCapacity", "ImplHeatCapacityPolyfit", "ImplGruneisen", "ConformsStatus",
-            "ConformsLen", "ConformsRows", "ConformsBulkModulus", "ConformsTables", "ConformsStencils"}
+            "ConformsLen", "ConformsRows", "ConformsBulkModulus", "ConformsTables", "ConformsStencils", "ConformsFiles"}
 Report ==
   AtEnd => LET failed == {n \in Clauses : ~Verdict(n)}
            IN  failed # {} => PrintT(<<"FAILED", X.id, failed>>)
